@@ -142,6 +142,58 @@ def l2_add_structure(run, rng, quick):
     return done
 
 
+def l2_apply_structure(run, rng, quick):
+    """exact structural replay of `RenoVerif.TreeVal.applyT` on the REAL `TTNO.apply`: integer-valued random states and
+    operators with integer factors (graph algorithm: entries stay integers); every node tensor of the result must equal the
+    operator node tensor times the state node tensor summed over the incoming physical indices, with each (state bond,
+    operator bond) pair merged row-major, state index first."""
+    import lib_tree as lt
+    from renormalizer.tn.tree import TTNO
+    done = 0
+    for _ in range(10 if quick else 100):
+        descs = lt.random_basis_descs(rng, int(rng.integers(1, 6)), qn_mode="none", kinds=["spin", "spin", "sho"])
+        descs2, spec = lt.random_tree_spec(rng, descs)
+        basis_list = lt.make_basis_list(descs2)
+        tree, nodes = lt.build_basis_tree(spec, basis_list)
+        st = lt.random_ttns_tensors(rng, spec, descs2, max_bond=3, cplx=False)
+        if st is None:
+            continue
+        tens = [np.round(3 * np.asarray(t)) for t in st["tensors"]]
+        ttns = lt.build_ttns(tree, spec, tens, st["qns"])
+        terms = lt.random_terms(rng, descs2, int(rng.integers(2, 5)), factor_scale="unit", structure=False)
+        ops = lt.terms_to_ops(None, terms, explicit_qn=False)
+        try:
+            ttno = TTNO(tree, ops, algo="Hopcroft-Karp")
+            res = ttno.apply(ttns)
+        except Exception as e:  # noqa
+            run.count("apply-structure-raised:" + type(e).__name__)
+            continue
+        done += 1
+        run.count(f"apply-structure:nodes={len(ttns.node_list)}:max-op-bond={max(int(n.tensor.shape[-1]) for n in ttno.node_list)}")
+        for k, (ns, no, nr) in enumerate(zip(ttns.node_list, ttno.node_list, res.node_list)):
+            S, O, Rr = np.asarray(ns.tensor), np.asarray(no.tensor), np.asarray(nr.tensor)
+            m = len(ns.children)
+            nph = S.ndim - m - 1
+            # einsum labels: children of state 0..m-1, children of operator m..2m-1, up a.., down b.., parents
+            cs = list(range(m))
+            co = list(range(m, 2 * m))
+            up = list(range(2 * m, 2 * m + nph))
+            dn = list(range(2 * m + nph, 2 * m + 2 * nph))
+            ps, po = 2 * m + 2 * nph, 2 * m + 2 * nph + 1
+            lab_s = cs + dn + [ps]
+            lab_o = co + [x for pair in zip(up, dn) for x in pair] + [po]
+            out = [x for pair in zip(cs, co) for x in pair] + up + [ps, po]
+            exp = np.einsum(S, lab_s, O, lab_o, out)
+            shape = [S.shape[i] * O.shape[i] for i in range(m)] + [S.shape[m + i] for i in range(nph)] + [S.shape[-1] * O.shape[-1]]
+            exp = exp.reshape(shape)
+            if Rr.shape != exp.shape or np.max(np.abs(Rr - exp)) > 1e-9 * max(1.0, float(np.max(np.abs(exp)))):
+                run.violation("apply:tree:node-tensor-not-operator-times-state",
+                              dict(spec=spec, node=k, children=m, physical_indices=nph, shape_result=list(Rr.shape), shape_expected=list(exp.shape),
+                                   what="TTNO.apply: a node tensor of the result is not the model tensor of RenoVerif.TreeVal.applyT"))
+                break
+    return done
+
+
 def l2_tree_gauge_contract(run, rng, quick):
     """hypotheses of `amp_bond_gauge` checked on every REAL gauge move of the tree code (push_cano_to_parent / _to_child
     during canonicalise and random walks of the centre): only the two tensors at the ends of ONE bond change, their
@@ -227,7 +279,7 @@ def l2_tree_gauge_contract(run, rng, quick):
 
 if __name__ == "__main__":
     common.main_wrapper(lambda: generic_check.run_check(
-        "C11", "other", ["RenoVerif/Props/C11.lean", "RenoVerif/Props/C11Tree.lean", "RenoVerif/Props/C06Tree.lean"], [l2_tree_invariances, l2_add_structure, l2_tree_gauge_contract],
+        "C11", "other", ["RenoVerif/Props/C11.lean", "RenoVerif/Props/C11Tree.lean", "RenoVerif/Props/C11Apply.lean", "RenoVerif/Props/C06Tree.lean"], [l2_tree_invariances, l2_add_structure, l2_apply_structure, l2_tree_gauge_contract],
         ["add, apply, canonicalise/compress, expectation, reduced density matrices and entropies of tree states are decided by the dense oracle only",
          "the tn package imports only with the print_tree shim"],
         "random trees (2-5 basis sets + dummies, all shapes) x random QN-free tensors; state-sum vs TTNS dense walk, scale, child permutation",
